@@ -131,13 +131,6 @@ Assumed(HR, 'Response.parse_status_line', {'cls': TAny(), 'data': TBytes()}, nam
         note='status-line parser: verified under C08 (specs/httpstream.py); here: succeeds exactly on lines that start with a well-formed status line')
 _status_of = z3.Function('status_of', z3.StringSort(), z3.IntSort())
 SPECFUNS['status_of'] = lambda ex, st, d: VInt(_status_of(d.term))
-Assumed(HR, 'Response.__init__', {'self': TObj('HTTPResponse'), 'status_code': TOpt(TInt()), 'reason': TOpt(TStr()), 'version': TStr(), 'request': TAny()},
-        name='HTTPResponse.__init__', defaults={'status_code': None, 'reason': None, 'version': 'HTTP/1.1', 'request': None},
-        modifies=['self.status_code', 'self.reason', 'self.version', 'self.fields', 'self.request', 'self.body'],
-        ensures=['self.status_code == status_code'], raises={})
-Assumed('wpull/namevalue.py', 'NameValueRecord.parse', {'self': TObj('NameValueRecord'), 'string': TBytes(), 'strict': TBool()}, defaults={'strict': True},
-        modifies=['self.map', 'self.count'], raises={'ValueError': ['strict']}, note='verified under C08: with strict=False malformed lines are skipped, never an exception')
-lib.MODULE_CONSTS['Response'] = VFunc('class', 'HTTPResponse')
 HEAD = 'self.block_file.content[self.block_file.pos:self.block_file.pos + 4096]'
 BLANK = '"(.|\\\\n)*\\\\r?\\\\n\\\\r?\\\\n(.|\\\\n)*"'
 Contract(FM, 'WARCRecord.get_http_header', S, ret=TOpt(TObj('HTTPResponse')), prop='C07', names={'Response': 'HTTPResponse'},
